@@ -396,6 +396,16 @@ func RunProperty[C any](t *testing.T, p Property[C]) {
 			}
 			path = saveReplay(p.ID, c, fs)
 		}
+		ev.mu.Lock()
+		if b, err := json.Marshal(c); err == nil && len(b) < 20000 {
+			ev.samples = append([]json.RawMessage{b}, ev.samples...) // the violating case is always shown
+			if len(ev.samples) > ev.sampleBudget {
+				ev.samples = ev.samples[:ev.sampleBudget]
+			}
+		} else if len(ev.samples) == 0 {
+			ev.samples = append(ev.samples, json.RawMessage(`"(violating case too large to inline; see the replay file)"`))
+		}
+		ev.mu.Unlock()
 		rec := violationRecord{Property: p.ID, Replay: path}
 		for _, f := range fs {
 			rec.Findings = append(rec.Findings, f.String())
